@@ -65,6 +65,9 @@ def scan_lemmas(rs_text):
     cur = None
     for i, l in enumerate(lines, 1):
         if "woven from the working tree (kweave)" in l:
+            if cur:
+                out.append((cur[0], i - 1, cur[1]))
+                cur = None
             break
         m = re.match(r"\s*pub proof fn (lemma_\w+)", l)
         if m:
